@@ -20,6 +20,9 @@ Stream (spec/NotifStream.tla):
    per step), reconnect to the same or a re-created controller, the real trimmer at instants chosen from the
    abstract clock; compared after every step: commit offset, notification keys stored in the DB, the offset of
    the empty first batch, the batch offered next, the batch delivered.
+   The subscriber half is bound to the real client library: oxia.AsyncClient.GetNotifications against a fake
+   leader (gRPC on a unix socket) that plays the behaviour; the StartOffsetExclusive of every reconnection must be
+   the last offset seen.
 6. code -> spec: random schedules recorded and judged by TLC (NotifTrace.tla).
 """
 import json
@@ -160,8 +163,37 @@ def run(ctx):
         lines = f.readlines()
     beh = json.loads(lines[len(lines) // 2])
     ctx.samples.append({"kind": "stream behaviour replayed on a real RF=1 leader", "steps": _show(beh), "demanded_after_last_step": beh[-1]})
+    steps_path = path
     path, n, _ = _export(ctx, "NotifStreamMC", "notif-runs.cfg", "RUN", "stream-runs", simulate="num=%d" % (30 if quick else 400), depth=20, workers=1)
     _stream_replay(ctx, nb, path, "runs")
+    # 5b. the subscriber half of the same behaviours: the real client library against a fake leader that does what
+    # the behaviour says the leader does; one representative per client-visible projection
+    nc = ctx.go_build("notifclient")
+    cp = os.path.join(ctx.scratch, "client.ndjson")
+    seen = set()
+    with open(cp, "w") as out:
+        for src in (steps_path, path):
+            for l in open(src):
+                b = json.loads(l)
+                subs = [s for s in b if s["a"] == "Subscribe"]
+                if len(subs) < 2 or subs[0]["arg"] != -2:
+                    continue
+                proj = json.dumps([(s["a"], s["arg"], s["dummy"]) for s in b if s["a"] in ("Subscribe", "Send", "Disconnect", "Restart")])
+                if proj not in seen and len(seen) < (60 if quick else 400):
+                    seen.add(proj)
+                    out.write(l)
+    if not seen:
+        raise vf.Inconclusive("no behaviour with a resuming subscriber was exported")
+    cout = os.path.join(ctx.scratch, "client.json")
+    ctx.run([nc, "replay", "-in", cp, "-out", cout])
+    cres = json.load(open(cout))
+    ctx.replayed += cres["behaviours"]
+    ctx.log("replayed %d subscriber behaviours on the real client library (oxia.GetNotifications against a scripted leader): %d mismatch class(es)" %
+            (cres["behaviours"], len(cres.get("mismatches") or [])))
+    for i, mm in enumerate(cres.get("mismatches") or []):
+        p = ctx.save_replay("c17-client-%d.json" % i, mm)
+        ctx.violation("real notifications client deviates from NotifStream.tla's subscriber at step %d of [%s]: %s" %
+                      (mm["step"], _show(mm["behaviour"]), mm["what"][:500]), p)
     # 6. stream, code -> spec
     nt = 150 if quick else 1500
     tp = os.path.join(ctx.scratch, "trace-stream.ndjson")
@@ -204,6 +236,15 @@ def replay(ctx, path):
             ctx.log("replayed schedule is accepted by NotifTrace")
         else:
             _stream_report(ctx, tp, hw, total, r, "rerun")
+        return
+    if mm.get("kind") == "client":
+        nc = ctx.go_build("notifclient")
+        cp = os.path.join(ctx.scratch, "client.ndjson")
+        open(cp, "w").write(json.dumps(mm["behaviour"]) + "\n")
+        cout = os.path.join(ctx.scratch, "client.json")
+        ctx.run([nc, "replay", "-in", cp, "-out", cout])
+        for x in json.load(open(cout)).get("mismatches") or []:
+            ctx.violation("real notifications client deviates from NotifStream.tla's subscriber: %s" % x["what"][:500], path)
         return
     if mm.get("kind") == "sessions":
         import c14
